@@ -23,6 +23,26 @@ CHECKS = {
         text="c02_accept_iff: decode+validate accepts a body iff it is the canonical encoding of a representable OPEN that satisfies the independent acceptability predicate (version 4, AS via 2-octet field/AS_TRANS + 4-octet-AS capability, hold 0 or >=3, non-multicast id not colliding inside the AS), returning exactly the sender's id, hold time and capabilities in order; c02_reject_sound: every refusal carries a notification whose fault is present; c02_no_panic. Function-level half; the FSM half (KEEPALIVE reply, OnOpenMessage once, NOTIFICATION then close) is checked at connection level.",
         note="Trusted: Coq kernel; model-code tie is differential (generator-bounded). The structural-fault oracle (subcode 0 vs 4) is an extracted specification function not yet covered by a theorem beyond 'not the encoding of any representable OPEN'.",
         design="8/C02"),
+    "C16": dict(
+        technique="Coq theorem: callback trace of Decode = RFC split relation (induction over the attribute loop) + differential correspondence + extracted oracle",
+        text="c16_calls: for every byte string and nil-returning callbacks the sequence of callback invocations of the modelled UpdateDecoder.Decode equals spec_calls, an independent walk of the sections and attribute TLVs (first occurrences in wire order with exact type/flags/value, Extended Length honoured, later duplicates skipped, repeated MP attribute aborts, overrun ends the walk but NLRI still delivered); c16_overrun_first: inconsistent section lengths abort before any callback for every callback behaviour. Model tied to the Go code by recording callbacks on exhaustive short strings over a protocol alphabet, grammar/mutation bodies, and bodies above 65535 bytes.",
+        note="Trusted: Coq kernel; model-code tie differential; callbacks modelled as a script indexed by call number (covers stateful callbacks).",
+        design="8/C16"),
+    "C17": dict(
+        technique="Coq theorems: nil iff clean (nil callbacks), totality and 'callback error never lost' for all callbacks, UpdateNotificationFromErr = first-leaf-by-severity spec (nested induction on error trees) + correspondence + extracted oracle",
+        text="c17_nil_iff_clean characterises the returned error for nil callbacks (nil iff consistent, clean attribute walk and mandatory attributes present when routes are announced; bare Notification for inconsistent lengths); c17_total and c17_callback_error_reported hold for every callback behaviour; c17_from_err proves UpdateNotificationFromErr equal to the specification on every finite error tree built from Join/wrap. The remaining clauses (contains every callback error in order, strongest class, Missing Well-known Attribute fallback) are decided by the extracted oracle on scripted callbacks of every class at every position.",
+        note="Trusted: Coq kernel; model-code tie differential. Foreign UpdateErrors are assumed to return a non-nil Notification; typed-nil errors inside trees are outside the model. The 'contains all / strongest class' clauses are oracle-checked, not yet theorems.",
+        design="8/C17"),
+    "C18": dict(
+        technique="Coq theorems per attribute: accept iff RFC flags and value rule, value exact, failure approach/subcode; finite sweep for flag accessors; _partial/_refuted pairs for the two known findings; correspondence + extracted oracle",
+        text="attr_sound proved for ORIGIN, NEXT_HOP, MED, LOCAL_PREF, AGGREGATOR, COMMUNITIES, ORIGINATOR_ID, CLUSTER_LIST, LARGE_COMMUNITIES for all 256 flag octets and all values; AS_PATH accept-iff against an independent segment grammar with failure class; flag accessors by a kernel-checked sweep of 256 octets. Two clauses are false of the code and carried as theorems with witnesses: c18_atomic_aggregate_refuted (D9) and c18_as_path_value_refuted (D10), each with a _partial theorem stating what does hold; both are listed in known_findings.json and reported as KNOWN-FINDING.",
+        note="Trusted: Coq kernel; model-code tie differential (all 256 flag octets x valid/invalid values per attribute, short-exhaustive values, long values).",
+        design="8/C18"),
+    "C19": dict(
+        technique="Coq theorems: decode(enc ps)=ps, accepted => enc(result)=input, fail iff no well-formed list encodes to the field, totality; exact characterisation of the MP splitters; correspondence + extracted oracle",
+        text="Round-trip/inverse/fail-iff/total theorems for plain and add-path prefix lists (IPv4 and IPv6) against specification encoders; c19_mp_reach / c19_mp_unreach give the splitters' result for every flags octet, body and callback result; IPv6 next hops 16 or 32 only; wrappers carry the assigned notification. Tied to the Go code by a length sweep over every length octet, generated lists with faults, and the full next-hop-length grid 0..255.",
+        note="Trusted: Coq kernel; model-code tie differential; netip.Prefix observed through Bits() and Addr().AsSlice().",
+        design="8/C19"),
 }
 
 NOT_YET = "check not built yet in this session (planned; see DESIGN.md section 11)"
